@@ -188,6 +188,7 @@ type Sim struct {
 	reqCh  chan req
 	doneCh chan Outcome
 	join   sync.WaitGroup
+	fin    uint32 // address only: every gate releases on it, the caller of Run acquires it after the run
 
 	// scheduler-private from here on
 	gs       []*gor
@@ -265,6 +266,10 @@ func Run(ch *Chooser, cfg Config, top func(*Sim)) Outcome {
 	if out.Kind == OutOK {
 		s.join.Wait()
 	}
+	// Goroutines left parked by a deadlock, a step cap or a panic never reach the join; what they wrote before
+	// their last gate is made visible to the caller here (nobody else acquires this address, so no edge between
+	// simulated goroutines is created).
+	raceAcquire(unsafe.Pointer(&s.fin))
 	cur.Store(nil)
 	return out
 }
@@ -273,6 +278,7 @@ func (s *Sim) recoverExit() {
 	if r := recover(); r != nil {
 		buf := make([]byte, 16<<10)
 		buf = buf[:runtime.Stack(buf, false)]
+		raceReleaseMerge(unsafe.Pointer(&s.fin))
 		raceDisable()
 		s.reqCh <- req{kind: kPanicExit, msg: fmt.Sprint(r), stack: string(buf)}
 		raceEnable()
@@ -280,6 +286,7 @@ func (s *Sim) recoverExit() {
 }
 
 func (s *Sim) exit() {
+	raceReleaseMerge(unsafe.Pointer(&s.fin))
 	raceDisable()
 	s.reqCh <- req{kind: kExit}
 	raceEnable()
@@ -288,6 +295,7 @@ func (s *Sim) exit() {
 // call hands a request to the scheduler and parks until it is this goroutine's turn again.
 func (s *Sim) call(r req) reply {
 	r.reply = make(chan reply)
+	raceReleaseMerge(unsafe.Pointer(&s.fin))
 	raceDisable()
 	s.reqCh <- r
 	rep := <-r.reply
